@@ -193,8 +193,6 @@ end Pep440Spec
 
 open Pep440Spec
 
-/-! bridge lemmas (they mention the specification) -/
-
 theorem bridge_seg (x y : LocalSeg) : cmpSeg x y = .lt ↔ segLt x y := by
   cases x <;> cases y <;> simp [cmpSeg, segLt, cmpNat_lt, cmpStr_lt_iff_strLt]
 
